@@ -236,3 +236,108 @@ pub proof fn lemma_undo_modify(c0: Seq<Seq<u8>>, hs: Seq<Hunk<&[u8]>>, d: PatchD
     assert(c1.subrange(on.len() as int, c1.len() as int) =~= c0.subrange(pn, c0.len() as int));
     assert(c0.subrange(0, pn) + c0.subrange(pn, c0.len() as int) =~= c0);
 }
+
+// ---------------------------------------------------------------- from apply's postcondition to the undo lemmas
+
+/// a hunk reported applied in normal mode removed exactly what stood at its changed lines
+pub proof fn lemma_normal_cores_match(hs: Seq<Hunk<&[u8]>>, d: PatchDirection, limit: int, c0: Seq<Seq<u8>>, deleted: bool, reps: Seq<HunkApplyReport>)
+    requires
+        reps.len() == hs.len(), hunks_wf(hs),
+        reports_normal(hs, d, limit, c0, deleted, reps, hs.len() as int),
+        reports_shape(hs, d, reps, hs.len() as int),
+    ensures
+        cores_match(c0, hs, d, reps, hs.len() as int),
+        deleted ==> forall|i: int| 0 <= i < hs.len() ==> !((#[trigger] reps[i]) is Applied),
+{
+    reveal(cores_match);
+    reveal(try_result);
+    reveal(placed_at);
+    let n = hs.len() as int;
+    assert forall|i: int| 0 <= i < n && (#[trigger] reps[i]) is Applied implies
+        !deleted && c0.subrange(rep_core_start(hs[i], reps[i]), rep_core_end(hs[i], d, reps[i])) == deep(v_old_core(hs[i], d, reps[i]->fuzz as int)) by {
+        let h = hs[i];
+        let r = norm(reps[i]);
+        let f = r->fuzz as int;
+        let line = r->line as int;
+        assert(hunk_wf(h));
+        assert(hunk_result(h, d, limit, c0, deleted, st_off(reps, i), st_frozen(hs, d, reps, i), r));
+        assert(try_result(h, d, f, c0, deleted, st_off(reps, i), st_frozen(hs, d, reps, i), r));
+        let needle = deep(v_old(h, d, f));
+        assert(matches_at(needle, c0, line));
+        let pc = v_pc(h, f);
+        let sc = v_sc(h, f);
+        assert(c0.subrange(line, line + needle.len()).subrange(pc, needle.len() - sc) =~= c0.subrange(line + pc, line + needle.len() - sc));
+        assert(needle.subrange(pc, needle.len() - sc) =~= deep(v_old_core(h, d, f)));
+    }
+}
+
+/// rollback mode's precondition follows from what a normal application leaves behind
+pub proof fn lemma_applied_gives_rollback_pre(c0: Seq<Seq<u8>>, hs: Seq<Hunk<&[u8]>>, d: PatchDirection, reps: Seq<HunkApplyReport>)
+    requires applied_state(c0, hs, d, reps)
+    ensures rollback_pre(hs, opp(d), reps, splice_spec(c0, hs, d, reps).len() as int)
+{
+    reveal(applied_state);
+    let n = hs.len() as int;
+    assert forall|i: int| 0 <= i < n && (#[trigger] reps[i]) is Applied implies -BIG() < reps[i]->rollback_line < 2 * BIG() by {
+        lemma_cores_prefix(c0, hs, d, reps, i, n);
+        lemma_out_len(c0, hs, d, reps, i);
+        lemma_total_mono(hs, i, n);
+        assert(hunk_wf(hs[i]));
+        assert(norm(reps[i]) == applied_report(hs[i], d, reps[i]->fuzz as int, reps[i]->line as int));
+        assert(reps[i]->rollback_line == reps[i]->line + sp_moff(c0, hs, d, reps, i));
+        assert(sp_pos(hs, d, reps, i) <= rep_core_start(hs[i], reps[i]));
+    }
+    assert forall|i: int, j: int| 0 <= i < j < n && (#[trigger] reps[i]) is Applied && (#[trigger] reps[j]) is Applied implies
+        reps[i]->rollback_line + v_old(hs[i], opp(d), reps[i]->fuzz as int).len() - v_sc(hs[i], reps[i]->fuzz as int)
+        <= reps[j]->rollback_line + v_pc(hs[j], reps[j]->fuzz as int) by {
+        lemma_view_opposite(hs[i], d, reps[i]->fuzz as int);
+        lemma_patched_segments(c0, hs, d, reps, i);
+        lemma_patched_segments(c0, hs, d, reps, j);
+        lemma_cores_prefix(c0, hs, d, reps, j, n);
+        lemma_out_grows(c0, hs, d, reps, i + 1, j);
+        assert(hunk_wf(hs[i]));
+        assert(norm(reps[i]) == applied_report(hs[i], d, reps[i]->fuzz as int, reps[i]->line as int));
+    }
+}
+
+/// on the patched file, rollback mode finds every applied hunk again: its reports are exactly the undo reports
+pub proof fn lemma_rollback_all_applied(c0: Seq<Seq<u8>>, hs: Seq<Hunk<&[u8]>>, d: PatchDirection, reps: Seq<HunkApplyReport>, und: Seq<HunkApplyReport>)
+    requires
+        applied_state(c0, hs, d, reps),
+        und.len() == hs.len(),
+        reports_rollback(hs, opp(d), reps, splice_spec(c0, hs, d, reps), false, und, hs.len() as int),
+    ensures
+        undo_like(hs, d, reps, und),
+        !any_failed_spec(und, hs.len() as int),
+{
+    reveal(undo_like);
+    reveal(applied_state);
+    let n = hs.len() as int;
+    let c1 = splice_spec(c0, hs, d, reps);
+    assert forall|i: int| 0 <= i < n implies norm(#[trigger] und[i]) == undo_report(hs[i], d, reps[i]) && !(und[i] is Failed) by {
+        if reps[i] is Applied {
+            let h = hs[i];
+            let f = reps[i]->fuzz as int;
+            assert(hunk_wf(h));
+            lemma_view_opposite(h, d, f);
+            lemma_patched_segments(c0, hs, d, reps, i);
+            lemma_cores_prefix(c0, hs, d, reps, i, n);
+            lemma_out_len(c0, hs, d, reps, i);
+            assert(norm(reps[i]) == applied_report(h, d, f, reps[i]->line as int));
+            assert(reps[i]->rollback_line == reps[i]->line + sp_moff(c0, hs, d, reps, i));
+            let nc = deep(v_new_core(h, d, f));
+            let at = reps[i]->rollback_line + v_pc(h, f);
+            assert(c1.subrange(at, at + nc.len()) == nc);
+            assert(matches_at(deep(v_old_core(h, opp(d), f)), c1, at));
+        }
+    }
+    lemma_no_failed(und, n);
+}
+
+pub proof fn lemma_no_failed(reports: Seq<HunkApplyReport>, n: int)
+    requires 0 <= n <= reports.len(), forall|i: int| 0 <= i < n ==> !((#[trigger] reports[i]) is Failed)
+    ensures !any_failed_spec(reports, n)
+    decreases n
+{
+    if n > 0 { lemma_no_failed(reports, n - 1); }
+}
